@@ -530,3 +530,222 @@ Proof.
     split; [auto|]. split; [reflexivity|]. intros v _.
     repeat split; intros (p & ? & H & _); congruence.
 Qed.
+
+(* ---------------------------------------------------------------------------------------------- *)
+(* 7. last_check                                                                                   *)
+
+Lemma last_cons_ne {T} (x d : T) l : l <> [] -> last (x :: l) d = last l d.
+Proof. destruct l; [congruence|reflexivity]. Qed.
+
+Lemma last_filter_max v (f : N -> bool) d : NoDup v -> forall a, In a v -> f a = true ->
+  In (last (filter f v) d) v /\ f (last (filter f v) d) = true /\ rk v a <= rk v (last (filter f v) d).
+Proof.
+  induction v as [|x r IH]; intros Hnd a Ha Fa; [contradiction|].
+  inversion Hnd as [|? ? Hx Hr]; subst.
+  assert (Hrk : forall b, In b r -> rk (x :: r) b = S (rk r b)).
+  { intros b Hb. simpl. destruct (N.eqb b x) eqn:E; [|reflexivity]. apply N.eqb_eq in E. subst. contradiction. }
+  destruct Ha as [<-|Ha].
+  - simpl filter. rewrite Fa. destruct (filter f r) as [|y l] eqn:E.
+    + simpl. rewrite N.eqb_refl. auto.
+    + assert (Hy : In y r /\ f y = true) by (apply filter_In; rewrite E; now left).
+      destruct (IH Hr y (proj1 Hy) (proj2 Hy)) as (H1 & H2 & _).
+      rewrite last_cons_ne by discriminate. split; [now right|]. split; [assumption|].
+      simpl rk at 1. rewrite N.eqb_refl. lia.
+  - destruct (IH Hr a Ha Fa) as (H1 & H2 & H3).
+    assert (Hne : filter f r <> []).
+    { intros E. assert (In a (filter f r)) by (apply filter_In; auto). rewrite E in H. contradiction. }
+    assert (El : last (filter f (x :: r)) d = last (filter f r) d).
+    { simpl. destruct (f x); [now apply last_cons_ne|reflexivity]. }
+    rewrite El. split; [now right|]. split; [assumption|]. rewrite !Hrk by assumption. lia.
+Qed.
+
+Lemma memN_last_opt a (g : list N -> list N) votes :
+  memN a (flat_map (fun v => last_opt (g v)) votes) = true <->
+  exists v, In v votes /\ g v <> [] /\ a = last (g v) 0%N.
+Proof.
+  rewrite memN_In, in_flat_map. unfold last_opt. split.
+  - intros (v & Hv & H). exists v. destruct (g v) eqn:E; [contradiction|]. destruct H as [<-|[]].
+    split; [assumption|]. split; [discriminate|reflexivity].
+  - intros (v & Hv & Hne & ->). exists v. split; [assumption|]. destruct (g v); [congruence|now left].
+Qed.
+
+Section Sound.
+Variables (alts : list N) (votes : list (list N)).
+Hypothesis Halts : NoDup alts.
+Hypothesis Hvotes : forall v, In v votes -> NoDup v /\ incl alts v.
+
+Lemma last_check_spec Y x1 x2 : In x1 alts -> In x2 alts -> last_check votes Y x1 x2 = true ->
+  (Y <> [] -> forall v, In v votes -> exists e, In e Y /\ In e v /\ e <> x1 /\ e <> x2 /\
+                                      rk v x1 <= rk v e /\ rk v x2 <= rk v e /\
+                                      forall y, In y Y -> In y v -> rk v y <= rk v e) /\
+  (exists v, In v votes /\ rk v x2 <= rk v x1) /\ (exists v, In v votes /\ rk v x1 <= rk v x2).
+Proof.
+  intros H1 H2. unfold last_check. set (restr := [x1; x2] ++ Y).
+  rewrite andb_true_iff, negb_true_iff, orb_false_iff, andb_true_iff. intros [[A1 A2] [B1 B2]].
+  split; [|split].
+  - intros HY v Hv. destruct (Hvotes v Hv) as [Hnd Hin].
+    assert (NE : negb (is_nil Y) = true) by (destruct Y; [congruence|reflexivity]).
+    rewrite NE, andb_true_r in A1, A2.
+    set (f := fun a => memN a restr).
+    assert (F1 : f x1 = true) by (apply memN_In; now left).
+    assert (F2 : f x2 = true) by (apply memN_In; right; now left).
+    destruct (last_filter_max v f 0%N Hnd x1 (Hin x1 H1) F1) as (E1 & E2 & E3).
+    destruct (last_filter_max v f 0%N Hnd x2 (Hin x2 H2) F2) as (_ & _ & E4).
+    set (e := last (filter f v) 0%N) in *.
+    assert (Hne : filter f v <> []).
+    { intros E. assert (In x1 (filter f v)) by (apply filter_In; split; [apply Hin|]; auto). rewrite E in H. contradiction. }
+    assert (N1 : e <> x1).
+    { intros E. apply memN_false in A1. apply A1. apply memN_In. apply memN_last_opt. exists v. auto. }
+    assert (N2 : e <> x2).
+    { intros E. apply memN_false in A2. apply A2. apply memN_In. apply memN_last_opt. exists v. auto. }
+    exists e. apply memN_In in E2. unfold restr in E2. simpl in E2.
+    destruct E2 as [E2|[E2|E2]]; [congruence|congruence|]. repeat split; auto.
+    intros y Hy Hyv. apply (last_filter_max v f 0%N Hnd y Hyv). apply memN_In. unfold restr. simpl. auto.
+  - apply memN_last_opt in B1. destruct B1 as (v & Hv & Hne & E). exists v. split; [assumption|].
+    destruct (Hvotes v Hv) as [Hnd Hin]. rewrite filter_filter_and in E, Hne.
+    set (f := fun a => memN a restr && memN a [x1; x2]) in *.
+    assert (F2 : f x2 = true).
+    { unfold f. apply andb_true_iff. split; apply memN_In; [unfold restr|]; simpl; auto. }
+    destruct (last_filter_max v f 0%N Hnd x2 (Hin x2 H2) F2) as (_ & _ & E3). now rewrite <- E in E3.
+  - apply memN_last_opt in B2. destruct B2 as (v & Hv & Hne & E). exists v. split; [assumption|].
+    destruct (Hvotes v Hv) as [Hnd Hin]. rewrite filter_filter_and in E, Hne.
+    set (f := fun a => memN a restr && memN a [x1; x2]) in *.
+    assert (F1 : f x1 = true).
+    { unfold f. apply andb_true_iff. split; apply memN_In; [unfold restr|]; simpl; auto. }
+    destruct (last_filter_max v f 0%N Hnd x1 (Hin x1 H1) F1) as (_ & _ & E3). now rewrite <- E in E3.
+Qed.
+
+(* ---------------------------------------------------------------------------------------------- *)
+(* 8. the invariant of every stored incomplete axis                                                *)
+
+Definition Good (A : paxis) : Prop :=
+  NoDup (pa_elems A) /\ incl (pa_elems A) alts /\ forall v, In v votes -> spv v (pa_elems A).
+(* Y = the set of alternatives placed last on A (the X component of the dictionary key) *)
+Definition Inv (A : paxis) (Y : list N) : Prop :=
+  Good A /\ (Y = [] -> pa_elems A = []) /\
+  forall a, In a (pa_elems A) -> exists v, In v votes /\ forall y, In y Y -> y <> a -> rk v y < rk v a.
+
+Lemma Good_empty : Good pa_empty.
+Proof. repeat split; simpl; [constructor|intros a []|]. intros v _ a b c (l1 & ? & ? & ? & E). destruct l1; discriminate. Qed.
+
+Lemma Inv_empty : Inv pa_empty [].
+Proof. split; [apply Good_empty|]. split; [reflexivity|]. intros a []. Qed.
+
+Lemma pa_elems_left x M1 M2 : pa_elems (x :: M1, M2) = rev M1 ++ x :: M2.
+Proof. unfold pa_elems. simpl. now rewrite <- app_assoc. Qed.
+Lemma pa_elems_right x M1 M2 : pa_elems (M1, x :: M2) = rev M1 ++ x :: M2.
+Proof. reflexivity. Qed.
+Lemma pa_elems_both u w M1 M2 : pa_elems (u :: M1, w :: M2) = rev M1 ++ u :: w :: M2.
+Proof. unfold pa_elems. simpl. now rewrite <- app_assoc. Qed.
+
+(* freshness of the new alternatives and the new "ranked below the last placed set" witnesses *)
+Lemma inv_fresh A Y x1 x2 : Inv A Y -> In x1 alts -> In x2 alts -> last_check votes Y x1 x2 = true ->
+  forall a, In a (pa_elems A) ->
+    a <> x1 /\ a <> x2 /\ exists v, In v votes /\ rk v x1 < rk v a /\ rk v x2 < rk v a.
+Proof.
+  intros (HG & HY & HQ) H1 H2 Hlc a Ha.
+  destruct (last_check_spec Y x1 x2 H1 H2 Hlc) as (LC1 & _ & _).
+  assert (HYne : Y <> []) by (intros E; rewrite (HY E) in Ha; contradiction).
+  destruct (HQ a Ha) as (v & Hv & Hq). destruct (LC1 HYne v Hv) as (e & He & Hev & N1 & N2 & R1 & R2 & _).
+  destruct (Hvotes v Hv) as [Hnd Hin].
+  assert (S1 : rk v x1 < rk v e).
+  { assert (rk v x1 <> rk v e) by (apply rk_neq; auto). lia. }
+  assert (S2 : rk v x2 < rk v e).
+  { assert (rk v x2 <> rk v e) by (apply rk_neq; auto). lia. }
+  assert (K : rk v x1 < rk v a /\ rk v x2 < rk v a).
+  { destruct (N.eq_dec e a) as [<-|Hne]; [auto|]. specialize (Hq e He Hne). lia. }
+  split; [intros ->; lia|]. split; [intros ->; lia|]. exists v. tauto.
+Qed.
+
+Lemma perm_two_middle {T} (u w : T) X Y : Permutation (u :: w :: X ++ Y) (X ++ u :: w :: Y).
+Proof.
+  eapply perm_trans; [apply perm_skip; apply Permutation_middle|]. apply Permutation_middle.
+Qed.
+
+Section Place.
+Variable pair_first : N -> N -> bool.
+
+(* place on an axis satisfying the invariant, with an eligible set of one or two alternatives *)
+Theorem place_inv A Y x1 x2 A' ok : Inv A Y -> In x1 alts -> In x2 alts -> last_check votes Y x1 x2 = true ->
+  place pair_first A (mkset x1 x2) votes = (A', ok) ->
+  (ok = true -> Inv A' (mkset x1 x2)) /\ (A' = A \/ Good A').
+Proof.
+  intros HI H1 H2 Hlc Hpl. pose proof HI as ((Hnd & Hincl & Hsp) & HY & HQ).
+  pose proof (inv_fresh A Y x1 x2 HI H1 H2 Hlc) as Hfresh.
+  destruct (last_check_spec Y x1 x2 H1 H2 Hlc) as (_ & (v1 & Hv1 & L1) & (v2 & Hv2 & L2)).
+  destruct A as [M1 M2]. unfold pa_elems in *. cbn [fst snd] in *.
+  assert (HinclV : forall v, In v votes -> incl (rev M1 ++ M2) v).
+  { intros v Hv a Ha. apply (proj2 (Hvotes v Hv)). now apply Hincl. }
+  unfold mkset in *. destruct (N.eqb x1 x2) eqn:E12.
+  - (* one alternative *)
+    apply N.eqb_eq in E12. subst x2. cbn [place] in Hpl.
+    assert (Hx : ~ In x1 (rev M1 ++ M2)) by (intros H; destruct (Hfresh x1 H) as [N _]; congruence).
+    apply case_3_cases in Hpl. cbn [fst snd] in Hpl. destruct Hpl as [[-> ->]|[HA' Hall]].
+    + split; [discriminate|now left].
+    + assert (HG' : Good A').
+      { assert (E : pa_elems A' = rev M1 ++ x1 :: M2).
+        { destruct HA' as [-> | ->]; [apply pa_elems_right|apply pa_elems_left]. }
+        unfold Good. rewrite E. split; [|split].
+        - eapply Permutation_NoDup; [apply Permutation_middle|]. now constructor.
+        - intros a Ha. apply in_app_or in Ha. destruct Ha as [Ha|[<-|Ha]]; [apply Hincl; apply in_or_app; now left|assumption|].
+          apply Hincl. apply in_or_app. now right.
+        - intros v Hv. destruct (Hall v Hv) as (K1 & K2 & K3).
+          apply sp_insert1; auto; [apply (proj2 (Hvotes v Hv)); assumption|now constructor]. }
+      split; [|now right]. intros _. split; [assumption|]. split; [discriminate|].
+      assert (E : pa_elems A' = rev M1 ++ x1 :: M2).
+      { destruct HA' as [-> | ->]; [apply pa_elems_right|apply pa_elems_left]. }
+      rewrite E. intros a Ha. apply in_app_or in Ha.
+      assert (Hold : In a (rev M1 ++ M2) -> exists v, In v votes /\ forall y, In y [x1] -> y <> a -> rk v y < rk v a).
+      { intros Hin. destruct (Hfresh a Hin) as (_ & _ & v & Hv & R & _). exists v. split; [assumption|].
+        intros y [<-|[]] _. assumption. }
+      destruct Ha as [Ha|[<-|Ha]]; [apply Hold; apply in_or_app; now left| |apply Hold; apply in_or_app; now right].
+      exists v1. split; [assumption|]. intros y [<-|[]] N. congruence.
+  - (* two alternatives *)
+    apply N.eqb_neq in E12.
+    assert (Hx1 : ~ In x1 (rev M1 ++ M2)) by (intros H; destruct (Hfresh x1 H) as [N _]; congruence).
+    assert (Hx2 : ~ In x2 (rev M1 ++ M2)) by (intros H; destruct (Hfresh x2 H) as (_ & N & _); congruence).
+    assert (Hc2 : exists y1 y2, ((y1 = x1 /\ y2 = x2) \/ (y1 = x2 /\ y2 = x1)) /\ case_2 (M1, M2) y1 y2 votes = (A', ok)).
+    { destruct (N.ltb x1 x2); cbn [place] in Hpl.
+      - destruct (pair_first x1 x2); [exists x1, x2|exists x2, x1]; auto.
+      - destruct (pair_first x2 x1); [exists x2, x1|exists x1, x2]; auto. }
+    destruct Hc2 as (y1 & y2 & Hy & Hc2). apply case_2_cases in Hc2. cbn [fst snd] in Hc2.
+    destruct Hc2 as [[-> ->]|(-> & u & w & Huw & -> & Hall)].
+    + split; [discriminate|now left].
+    + assert (Huw' : (u = x1 /\ w = x2) \/ (u = x2 /\ w = x1)).
+      { destruct Hy as [[-> ->]|[-> ->]], Huw as [[-> ->]|[-> ->]]; auto. }
+      clear Hy Huw.
+      assert (Hu : In u alts /\ In w alts /\ u <> w /\ ~ In u (rev M1 ++ M2) /\ ~ In w (rev M1 ++ M2)).
+      { destruct Huw' as [[-> ->]|[-> ->]]; repeat split; auto. }
+      destruct Hu as (Hua & Hwa & Huw & Hu & Hw).
+      assert (HG' : Good (u :: M1, w :: M2)).
+      { unfold Good. rewrite pa_elems_both. split; [|split].
+        - eapply Permutation_NoDup; [apply perm_two_middle|]. constructor; [|now constructor].
+          intros [E|H]; [congruence|contradiction].
+        - intros a Ha. apply in_app_or in Ha. destruct Ha as [Ha|[<-|[<-|Ha]]]; auto;
+            apply Hincl; apply in_or_app; auto.
+        - intros v Hv. destruct (Hall v Hv) as ((K1 & K2 & K3) & K4 & K5 & K6).
+          apply sp_insert2; auto; try (apply (proj2 (Hvotes v Hv)); assumption).
+          constructor; [|now constructor]. intros [E|H]; [congruence|contradiction]. }
+      split; [|now right]. intros _. split; [assumption|]. split.
+      { destruct (N.ltb x1 x2); discriminate. }
+      rewrite pa_elems_both. intros a Ha.
+      assert (HX : forall y, In y (if N.ltb x1 x2 then [x1; x2] else [x2; x1]) -> y = x1 \/ y = x2).
+      { intros y Hy. destruct (N.ltb x1 x2); simpl in Hy; intuition auto. }
+      assert (Hold : In a (rev M1 ++ M2) ->
+                exists v, In v votes /\ forall y, In y (if N.ltb x1 x2 then [x1; x2] else [x2; x1]) -> y <> a -> rk v y < rk v a).
+      { intros Hin. destruct (Hfresh a Hin) as (_ & _ & v & Hv & R1 & R2). exists v. split; [assumption|].
+        intros y Hy _. destruct (HX y Hy) as [-> | ->]; assumption. }
+      assert (Hn1 : exists v, In v votes /\ forall y, In y (if N.ltb x1 x2 then [x1; x2] else [x2; x1]) -> y <> x1 -> rk v y < rk v x1).
+      { exists v1. split; [assumption|]. intros y Hy N. destruct (HX y Hy) as [-> | ->]; [congruence|].
+        destruct (Hvotes v1 Hv1) as [_ Hin]. assert (rk v1 x2 <> rk v1 x1) by (apply rk_neq; auto). lia. }
+      assert (Hn2 : exists v, In v votes /\ forall y, In y (if N.ltb x1 x2 then [x1; x2] else [x2; x1]) -> y <> x2 -> rk v y < rk v x2).
+      { exists v2. split; [assumption|]. intros y Hy N. destruct (HX y Hy) as [-> | ->]; [|congruence].
+        destruct (Hvotes v2 Hv2) as [_ Hin]. assert (rk v2 x1 <> rk v2 x2) by (apply rk_neq; auto). lia. }
+      apply in_app_or in Ha. destruct Ha as [Ha|[<-|[<-|Ha]]].
+      * apply Hold. apply in_or_app. now left.
+      * destruct Huw' as [[-> _]|[-> _]]; assumption.
+      * destruct Huw' as [[_ ->]|[_ ->]]; assumption.
+      * apply Hold. apply in_or_app. now right.
+Qed.
+End Place.
+End Sound.
